@@ -11,6 +11,7 @@
 -/
 import SSEPyVerif.Model.Schemes.Wire
 import SSEPyVerif.Model.Schemes.SSE2
+import SSEPyVerif.Generated.MutationSites
 namespace SSEPy.C07
 open SSEPy.Sch
 
@@ -62,6 +63,51 @@ theorem all_schemes_history_independent :
    fun _ _ e tks => history_independent _ (fun _ _ => rfl) e tks,
    fun I tks => history_independent _ (fun _ _ => rfl) I tks,
    fun _ _ e tks => history_independent _ (fun _ _ => rfl) e tks⟩
+
+/-! ### the CODE changes only objects it created itself (table regenerated from the source on every run)
+
+  `Generated/MutationSites.lean` lists every mutating statement of the scheme layer — subscript / attribute stores,
+  augmented stores, `del`, calls of mutating methods, `random.shuffle`, calls of repository functions that change the
+  parameter they are given — in `schemes/*/*/{construction,structures,config}.py`, `schemes/interface/*.py` and (for shared
+  state and in-place helpers) `toolkit/`, each with the provenance of the object it changes as computed by the alias
+  analysis of `harness/translate/mutation_sites.py`.  The theorem says that every one of them changes an object created
+  inside the call (`fresh`) or initialises the object under construction (`init`), with two families of exceptions spelled
+  out in `benign`.  A dropped deep copy (CT14 / ANSS16 pad a COPY of the database), a helper that starts working in place,
+  a per-object or per-module cache, a mutable default argument — each turns a row into `param`, `self`, `global` or
+  `default` and the theorem stops checking. -/
+
+open SSEPy.Generated in
+/-- state that outlives a call on the current tree, each kind benign for the stated reason -/
+def benign (s : MutSite) : Bool :=
+  -- the four primitive factories memoise the CLASS registered under a primitive's name (idempotent; no key, keyword or
+  -- identifier is stored; what the factories return is checked by C14 / C16)
+  (s.kind == .global && s.root == "cache" &&
+    (s.func == "get_hash_implementation" || s.func == "get_prf_implementation" || s.func == "get_prp_implementation" ||
+     s.func == "get_symmetric_encryption_implementation")) ||
+  -- the module loader imports a scheme's three modules lazily and keeps the module objects
+  (s.kind == .self && s.file == "schemes/interface/module_loader.py" &&
+    (s.func == "SSEModuleClassLoader._load_construction_module" || s.func == "SSEModuleClassLoader._load_structure_module" ||
+     s.func == "SSEModuleClassLoader._load_config_module"))
+
+open SSEPy.Generated in
+def siteOk (s : MutSite) : Bool := s.kind == .fresh || s.kind == .init || benign s
+
+open SSEPy.Generated in
+theorem scheme_layer_mutates_only_its_own_objects :
+    ∀ s ∈ mutationSites, s.kind = .fresh ∨ s.kind = .init ∨ benign s = true := by
+  have h : mutationSites.all siteOk = true := by decide +kernel
+  intro s hs
+  have := List.all_eq_true.mp h s hs
+  simp only [siteOk, Bool.or_eq_true, beq_iff_eq] at this
+  rcases this with (h1 | h1) | h1
+  · exact Or.inl h1
+  · exact Or.inr (Or.inl h1)
+  · exact Or.inr (Or.inr h1)
+
+open SSEPy.Generated in
+/-- non-vacuity: the table is not empty and does contain stores into containers (the padded copy of CT14 / ANSS16 among them) -/
+example : 100 < mutationSites.length ∧ (mutationSites.any fun s => s.root == "padded_database" && s.kind == .fresh) = true := by
+  decide +kernel
 
 /-- non-vacuity: a concrete history with a repetition -/
 example : history (fun (s : Nat) (x : Nat) => (s, s + x)) 10 [1, 2, 1] = (10, [11, 12, 11]) := by decide
